@@ -801,3 +801,49 @@ def run_remcarry(ctx, rep, cfg="Q", rule="REM-CARRY"):
             rep.violation(rule, "checked_div", "the remainder of %s is not carried into the result's nanosecond: the quotient is not the exact "
                           "truncated quotient of the whole duration (1s 2ns / 3 gives 333_333_333 ns instead of 333_333_334)"
                           % sorted(l for (l, d_) in divs - rems), loc)
+
+
+# ---------------------------------------------------------------------------------------------------------------------
+# NEG-MAGNITUDE: -(checked conversion of an unsigned magnitude) can never be the signed minimum
+
+def run_negmagnitude(ctx, rep, cfg="Q", rule="NEG-MAGNITUDE", floor=1):
+    from .guards import guards, strip_not
+    rep.rule(rule, "a signed value produced by negating the Ok payload of a checked unsigned-to-signed conversion (`-T::try_from(u)?`, "
+                   "`T::try_from(u)?.checked_neg()`) cannot be T::MIN, whose magnitude the conversion rejects although the negated value "
+                   "is representable: every such negation in the crate is on a path that has tested the magnitude against |MIN| (a "
+                   "comparison with 2^63 / i64::MIN.unsigned_abs()) and handles that case separately; otherwise results in "
+                   "[T::MIN, -(2^63) s] are reported as overflow (SignedDuration::system_until for times 2^63 s apart)")
+    prog = ctx.prog(cfg)
+    n = 0
+    TWO63 = 1 << 63
+    for f in sorted(prog.fns.values(), key=lambda f: f.key):
+        if f.crate != "jiff":
+            continue
+        negs = [(bi, t) for bi, t in mir.iter_calls(f) if re.search(r"::(checked_neg|neg|wrapping_neg|saturating_neg)$", t.get("path", ""))]
+        if not negs:
+            continue
+        T = Terms(f)
+        cfg_ = mir.CFG(f)
+        ords = 0
+        for bi, t in negs:
+            a = T.at_call(bi, t, 0)
+            conv = [x for x in walk(a) if isinstance(x, tuple) and x and x[0] == "call"
+                    and re.search(r"TryFrom<core::time::Duration>.*::try_from$|TryFrom<u(64|128|size|32)>.*::try_from$", x[1])]
+            if not conv:
+                continue
+            n += 1
+            ords += 1
+            key = norm_key("%s | NEG-MAGNITUDE#%d" % (f.key, ords))
+            loc = "%s:%s" % (f.file, t["span"]["line"])
+            tested = False
+            for (c, _truth, _sb) in guards(f, cfg_, T, bi):
+                for x in walk(c):
+                    if x == ("const", TWO63) or (isinstance(x, tuple) and x and x[0] == "call" and x[1].endswith("::unsigned_abs")):
+                        tested = True
+            if tested:
+                rep.ok(rule, key, how="the path has compared the magnitude with |MIN| and handles it separately", loc=loc)
+            else:
+                rep.violation(rule, key, "the Ok payload of %s is negated on a path that never compared the magnitude with |MIN|: a result "
+                              "equal to the signed minimum (magnitude 2^63 s) is rejected by the conversion although it is representable"
+                              % conv[0][1].split(" as ")[0][-60:], loc)
+    rep.floor(rule + " sites", n, floor)
